@@ -206,4 +206,10 @@ theorem C14_multiple_from_syn (b : Back) (bark : Bool) (nodes : List RawField) (
                | none => rfl
                | some p => obtain ⟨o, c⟩ := p; simp [List.reverse_cons, List.append_assoc])
 
+/-- C14 (*table*, regenerated): the categories a member-level `repeat(..)` can name, and the parameter kinds a trait-level
+    `repeat(..)` can name, are the documented ones, in the order the `repeat_for` vectors are indexed -/
+theorem C14_repeat_categories :
+    (Gen.memberRepeatTypes == ["map", "child", "parent", "ghost", "type_hint"]
+     && Gen.traitRepeatTypes == ["vars", "update", "quick_return", "default_case"]) = true := by decide
+
 end O2o
